@@ -44,7 +44,10 @@ static char g_tick[160] = "nonterm|?";
 int __real_randInt(int low, int high);
 double __real_randDouble(double low, double high);
 int __wrap_randInt(int low, int high) { vx_tick(g_tick); return __real_randInt(low, high); }
-double __wrap_randDouble(double low, double high) { vx_tick(g_tick); return __real_randDouble(low, high); }
+/* KMeansppCenters hands the cumulative squared distances (B, A] of its internal distance vector to randDouble: the only
+ * place where the result of its sliced distance worker can be observed (the stream is observed, never altered) */
+static uint64_t g_draw_hash = 0;
+double __wrap_randDouble(double low, double high) { vx_tick(g_tick); double a[2] = {low, high}; g_draw_hash = vx_hash_doubles(a, 2, g_draw_hash); return __real_randDouble(low, high); }
 
 /* ------------------------------------------------------------------ ThreadSanitizer report hook (see h_C13.c / notes) */
 static volatile int g_race = 0; static char g_race_desc[48];
@@ -188,8 +191,10 @@ static void op_select(void) {
   } else {                      /* k-means++ seeding */
     uivector *s1, *st; initUIVector(&s1); initUIVector(&st);
     snprintf(g_tick, sizeof g_tick, "nonterm|KMeansppCenters|%s", want == n ? "select-all" : "select-some");
-    srand_((uint32_t)(seed + 1)); vx_tick_reset(); KMeansppCenters(m, (size_t)want, s1, 1);
-    race_reset(); srand_((uint32_t)(seed + 1)); vx_tick_reset(); KMeansppCenters(m, (size_t)want, st, th); vx_transition(2); race_check("KMeansppCenters", tc);
+    srand_((uint32_t)(seed + 1)); vx_tick_reset(); g_draw_hash = 0; KMeansppCenters(m, (size_t)want, s1, 1); uint64_t dh1 = g_draw_hash;
+    race_reset(); srand_((uint32_t)(seed + 1)); vx_tick_reset(); g_draw_hash = 0; KMeansppCenters(m, (size_t)want, st, th); vx_transition(2); race_check("KMeansppCenters", tc);
+    snprintf(key, sizeof key, "thread-independence|KMeansppCenters:sampling-weights|%s", tc);
+    JUDGE(dh1 == g_draw_hash, key, "KMeansppCenters(%d x %d, %d centres, seed %d): the cumulative squared distances handed to randDouble differ between %d threads and 1 thread", n, d, want, seed + 1, th);
     snprintf(key, sizeof key, "selection-valid|KMeansppCenters|%s", want == n ? "select-all" : want == 1 ? "select-1" : "select-some");
     JUDGE(valid_selection(st, want, n), key, "KMeansppCenters(%d x %d, %d centres, seed %d, %d threads): %zu indices returned, not %d distinct ones below %d", n, d, want, seed + 1, th, st->size, want, n);
     snprintf(key, sizeof key, "thread-independence|KMeansppCenters|%s", tc);
